@@ -118,6 +118,11 @@ inductive Op where
   /-- `cast` (`rpc::cast`, `ActorRef::cast`, `cast!`, `DerivedActorRef::{cast, send_message}`): a
   plain message carrying `v` is enqueued iff the actor accepts messages -/
   | cast (a v : Nat)
+  /-- the handler of `a`'s current message FAILS (returns `Err` or panics): `ActorErr::Failed` →
+  `SupervisionEvent::ActorFailed(cell, err)` carries NO state; the handler future (with the port it
+  dequeued), the mailbox and the state (dropped when the actor task ends) all go — for the ports
+  exactly a kill. Nothing to fail when no message is being handled. -/
+  | fail (a : Nat)
   deriving Repr
 
 def accepting (s : S) (a : Nat) : Bool :=
@@ -356,6 +361,10 @@ def stepCore (s : S) : Op → S
       else s
     | none => s
   | .supexit u => supExit s u
+  | .fail a =>
+    match s.actors[a]? with
+    | some x => if x.alive && !x.mailbox.isEmpty then exitActor s a else s
+    | none => s
   | .cast a v =>
     { s with actors := s.actors.modify a (fun x =>
         if x.alive && !x.draining then { x with mailbox := x.mailbox ++ [.fwd v] } else x) }
